@@ -4,7 +4,7 @@ ID="$1"; CHK="${2:-$1}"
 WT=$(mktemp -d /tmp/wt-seedtest-XXXXXX)
 git -C /repo worktree add -q --detach "$WT" HEAD || exit 2
 if git -C "$WT" apply /verif/seeded/$ID/patch.diff; then
-  VERIF_REPO="$WT" VERIF_EVIDENCE="$WT/ev.json" timeout 1500 /verif/run.sh "$CHK" quick 2>&1 | grep -E "VIOLATION|signature=|BUILD-ERROR|^C[0-9]+ " | head -${LINES_MAX:-6}
+  VERIF_REPLAYS="$WT/.verif-replays" VERIF_BUILD_DIR="$WT/.verif-build" VERIF_REPO="$WT" VERIF_EVIDENCE="$WT/ev.json" timeout 1500 /verif/run.sh "$CHK" quick 2>&1 | grep -E "VIOLATION|signature=|BUILD-ERROR|^C[0-9]+ " | head -${LINES_MAX:-6}
 else
   echo "PATCH DOES NOT APPLY to HEAD"
 fi
